@@ -23,7 +23,7 @@ ID = "C07"
 LEVEL = "model_checking"
 TECHNIQUE = "explicit-state BFS over real storage objects (all dump keys as transitions, full read alphabet on every state) against a reference masked NumPy array"
 RULE = ("backends FileArray (rank <= 2 also with a custom filename_template), DictArray, SharedMemoryDictArray x full shapes (3,), (2,3) (thorough: (3,) depth 5, (2,3) depth 3, (3,2) depth 2, (2,3,2) depth 1) x all 2^rank external/internal masks; "
-        "transitions = dump(key, fresh value; for the all-external masks of rank <= 2 also the same exploration with None as the value of every odd write; for masks with internal axes of rank <= 2 also with every odd element handed over as a nested Python list instead of an ndarray) for EVERY external key tuple over ints in [-n,n) and slices {:, ::2, ::-1, 1:}; reads on every state = "
+        "transitions = persist() (dict backends; the canonical state includes which elements differ from the persisted copy) and dump(key, fresh value; for the all-external masks of rank <= 2 also the same exploration with None as the value of every odd write; for masks with internal axes of rank <= 2 also with every odd element handed over as a nested Python list instead of an ndarray) for EVERY external key tuple over ints in [-n,n) and slices {:, ::2, ::-1, 1:}; reads on every state = "
         "__getitem__ for every full-rank key tuple from the same per-axis menu, to_array(splat_internal None/False/True), mask, mask_linear, has_index, (mask, mask_linear and every all-int element read also BETWEEN the writes of a history, on the same object) "
         "get_from_index, persist+reopen, and error keys (each axis out of range by +-1, rank +-1). SharedMemoryDictArray at depth 1 for rank 2 in quick (every proxy call is an RPC). States merged by stored content with values renamed by first appearance")
 ASSUMPTIONS = ["reference = numpy masked object array of the full shape (vmc/props/c07.py:Ref)",
@@ -187,7 +187,18 @@ def replay_history(cfg, hist):
             mid.append((f"element read after {after} writes", f"raised {type(e).__name__}: {str(e)[:60]}", "an element"))
 
     cheap_reads(0)
+    snapshot = None  # reference content at the last persist()
     for step, kj in enumerate(hist, 1):
+        if kj == "P":
+            # persist() as an operation of the history (not only as the last step before a reopen): what a LATER persist
+            # writes must not depend on what an earlier one wrote
+            try:
+                arr.persist()
+            except Exception as e:  # noqa: BLE001
+                err = (step, e)
+                break
+            snapshot = (ref.data.copy(), ref.missing.copy())
+            continue
         key = key_from_json(kj)
         v = value_for(cfg, step)
         try:
@@ -198,6 +209,12 @@ def replay_history(cfg, hist):
         ref.dump(key, v)
         cheap_reads(step)
     arr._vmc_mid = mid
+    # which elements differ from the persisted copy (part of the canonical state: same content, other disk image = other futures)
+    if snapshot is None:
+        arr._vmc_dirty = ("never-persisted",)
+    else:
+        d0, m0 = snapshot
+        arr._vmc_dirty = tuple(bool(m0[i] != ref.missing[i] or (not ref.missing[i] and norm(d0[i]) != norm(ref.data[i]))) for i in np.ndindex(*ref.full))
     return arr, ref, base, folder, err
 
 
@@ -318,13 +335,14 @@ def check_history(cfg, hist, full_reads=True):
     try:
         if err is not None:
             step, e = err
-            slice_key = any(isinstance(k, list) for k in hist[step - 1])
+            slice_key = hist[step - 1] != "P" and any(isinstance(k, list) for k in hist[step - 1])
             return [(findings.exc_sig(e, op="dump", slice_key=slice_key, **pred),
                      f"{cfg}: dump({hist[step - 1]}) (step {step} of {hist}) raised {type(e).__name__}: {str(e)[:100]}")], None
         vs = []
         for what, got, exp in getattr(arr, "_vmc_mid", []):
             vs.append(({"kind": "read-mismatch", "op": what.split(" ")[0], "interleaved": True, **pred}, f"{cfg} history {hist}: {what} = {got}, reference {exp}"))
         before = stored_state(arr)
+        state = (before, getattr(arr, "_vmc_dirty", ()))
         for what, got, exp, extra in read_table(cfg, arr, ref, folder, full_reads):
             opk = what.split("(")[0].split("[")[0].split("-")[0]
             vs.append(({"kind": "read-mismatch" if "exc" not in extra else "exception", "op": opk, "unwritten_involved": "~" in str(exp) or "~" in str(got), **extra, **pred},
@@ -336,7 +354,7 @@ def check_history(cfg, hist, full_reads=True):
                 opk = what.split("(")[0].split("[")[0].split("-")[0]
                 vs.append(({"kind": "reopen-mismatch" if "exc" not in extra else "exception", "op": opk, **extra, **pred},
                            f"{cfg} after dumps {hist}: {what} = {got}, reference {exp}"))
-        return vs, before
+        return vs, state
     finally:
         if os.path.exists(base):
             shutil.rmtree(base, ignore_errors=True)
@@ -345,7 +363,10 @@ def check_history(cfg, hist, full_reads=True):
 # ------------------------------------------------------------------------------------------------
 def write_alphabet(cfg):
     _, _, ext, _ = geometry(cfg)
-    return [key_json(k) for k in itertools.product(*(axis_menu(n) for n in ext))]
+    ws = [key_json(k) for k in itertools.product(*(axis_menu(n) for n in ext))]
+    if cfg["backend"] != "file_array":
+        ws.append("P")  # persist() between the writes (FileArray.persist does nothing)
+    return ws
 
 
 def bfs(cfg, depth, acc, chunk=0, nchunks=1):
